@@ -142,6 +142,8 @@ type Ctx struct {
 	// RulePrefix marks every violation of a stratum whose history shape is a
 	// recorded known finding (so that it can be matched narrowly).
 	RulePrefix string
+	faults     []counter
+	probes     []counter
 }
 
 func (x *Ctx) Violate(rule, format string, a ...any) {
@@ -158,17 +160,46 @@ func (x *Ctx) Violate(rule, format string, a ...any) {
 	x.Res.Viol = append(x.Res.Viol, Violation{rule, d})
 }
 
-func (x *Ctx) Fault(kind string) { x.Res.Faults[kind]++ }
+// Counters are slices, not maps: they are bumped from many simulated goroutines
+// and the runtime's map helpers would report those accesses to the race
+// detector on behalf of the (uninstrumented) harness.
+type counter struct {
+	name string
+	n    int
+}
+
+func bump(cs *[]counter, name string, n int) {
+	for i := range *cs {
+		if (*cs)[i].name == name {
+			(*cs)[i].n += n
+			return
+		}
+	}
+	*cs = append(*cs, counter{name, n})
+}
+
+func (x *Ctx) Fault(kind string) { bump(&x.faults, kind, 1) }
 func (x *Ctx) FaultN(kind string, n int) {
 	if n > 0 {
-		x.Res.Faults[kind] += n
+		bump(&x.faults, kind, n)
 	}
 }
-func (x *Ctx) Probe(name string) { x.Res.Probes[name]++ }
+func (x *Ctx) Probe(name string) { bump(&x.probes, name, 1) }
 func (x *Ctx) ProbeN(name string, n int) {
 	if n > 0 {
-		x.Res.Probes[name] += n
+		bump(&x.probes, name, n)
 	}
+}
+
+// flushCounters copies the counters into the result (root goroutine, at the end).
+func (x *Ctx) flushCounters() {
+	for _, c := range x.faults {
+		x.Res.Faults[c.name] += c.n
+	}
+	for _, c := range x.probes {
+		x.Res.Probes[c.name] += c.n
+	}
+	x.faults, x.probes = nil, nil
 }
 func (x *Ctx) Trouble(format string, a ...any) {
 	if x.Res.Trouble == "" {
